@@ -14,6 +14,16 @@ CLAIMS = {
   text="Proved in Lean for every store length, stride, delay, order and input sequence: after u0..ut the NVAR store row j is u(t-j) (zero before the start), the strided selection is u(t), u(t-s), ..., u(t-(k-1)s), the output is that linear part followed by one monomial per combination-with-replacement in itertools order (count = C(kd+n-1,n), every combination sorted in pool order); Delay emits buf reversed then the inputs shifted by d, d=0 is the identity; Concat lays its parts side by side in the order given. Tied to the code by exact (rational equality) comparison of NVAR.run/call, Delay.run/call, Concat.call with the model driver on the full small configuration grid, plus a direct Python oracle of the documented functions.",
   note="Trusted: Lean kernel + standard axioms; the hand-written model lean/RpyModel/Windows.lean; the harness. Not verified: numpy roll/ravel/prod internals (observed only through the correspondence).",
   design="§6 C17"),
+ "C20": dict(
+  technique="Lean 4 proof (list/index arithmetic, sortedness of the class list, generic iterated-map lemma) + exact differential correspondence of to_forecasting / one_hot_encode index maps and exact step-residual check of the map generators",
+  text="Proved in Lean for every series length, forecast and test length: X[i]=s[i], y[i]=s[i+f], both of length n-f; train ++ test = whole, in order, disjoint, test of the requested (capped) size, alignment preserved on both parts; the class list is strictly increasing and holds exactly the labels, row i is the unit vector of the unique index of label i, multi-sequence output is the encoded concatenation cut at the original boundaries; an iterated-map series has the requested length, starts at x0 and every consecutive pair satisfies the map (logistic, Henon). NARMA: the implemented recurrence is stated, and a decide-witness shows it differs from the documented one (finding K8). Tied to the code by exact comparison of index maps / encodings on random shapes, axes, sizes and label types, and by evaluating the model's step function in exact rationals on every consecutive pair of the implementation's own series (residual <= 1e-13 relative).",
+  note="Trusted: Lean kernel + standard axioms; lean/RpyModel/Datasets.lean; the harness (np.moveaxis to bring the time axis to the front; Python sorted() as the label order). Not verified: float rounding inside one map step (bounded by the residual tolerance).",
+  design="§6 C20"),
+ "C04": dict(
+  technique="Lean 4 proof over any linearly ordered field (gap identity via trace algebra; induction over sequences for the accumulators) + correspondence in exact rationals with a certifying solve",
+  text="Proved in Lean for every dataset (list of sequences), warm-up and lambda>0: the model's buffers equal the sums of x~x~^T and y x~^T over exactly the retained timesteps (C04_accumulate), warm-up rows have no influence (C04_warmup_irrelevant), any W passing the exact normal-equation certificate is the unique minimiser of sum ||V^T x~ - y||^2 + lambda ||V||^2 over the retained timesteps, bias and weights regularised together (C04_gap, C04_optimal, C04_fit_optimal, C04_unique_solution), prediction = Wout^T x + bias and the bias/weight split is the raw solution on the augmented input (C04_predict, C04_split_bias). Tied to the code by running the same model on exact rationals from the same dyadic/integer data: Ridge.fit's Wout/bias are compared with the certified exact optimum (1e-9) and their exact normal-equation residual is computed by the model; arrays, 3-D arrays, ragged lists, all dtypes, wild warm-up rows, an ill-conditioned stream.",
+  note="Trusted: Lean kernel + standard axioms; lean/RpyModel/Readout.lean; the harness. The Gauss-Jordan solver in the model is untrusted (its output is used only after the exact certificate). Not verified: scipy.linalg.solve / BLAS rounding (bounded by the 1e-9 comparison on the generated conditioning range).",
+  design="§6 C04"),
 }
 
 NOT_YET = "check not built yet in this revision (planned, see DESIGN.md §11)"
